@@ -79,6 +79,12 @@ class VecInterp(SE.Interp):
             return self.index(base, idx)
         if k == "struct" and e0["path"].get("path") == "core::ops::range::RangeFull":
             return ("rangefull",)
+        if k == "struct" and e0["path"].get("path") == "core::ops::range::RangeTo":
+            flds = {x["name"]: self.ev(x["e"], env) for x in e0["fields"]}
+            return ("range", 0, flds["end"], False)
+        if k == "struct" and e0["path"].get("path") == "core::ops::range::RangeToInclusive":
+            flds = {x["name"]: self.ev(x["e"], env) for x in e0["fields"]}
+            return ("range", 0, flds["end"], True)
         if k == "path" and e0.get("path") == "core::ops::range::RangeFull":
             return ("rangefull",)
         if k == "assignop":
@@ -103,6 +109,37 @@ class VecInterp(SE.Interp):
             raise H.Unsupported("arithmetic on %r, %r" % (a, b))
         if k == "match" and e0.get("src") == "ForLoopDesugar":
             return self.for_loop(e0, env)
+        if k == "match" and str(e0.get("src", "")).startswith("TryDesugar"):
+            # `x?` on an Option: None returns None from the function, Some(v) yields v
+            sc = H.unwrap(e0["scrut"])
+            inner = self.ev(sc["args"][0] if H.is_k(sc, "call") and sc.get("args") else sc, env)
+            if inner == H.NONE_V:
+                raise SE.Ret(H.NONE_V)
+            if isinstance(inner, tuple) and inner[0] == "v" and inner[1] == H.SOME:
+                return inner[2][0]
+            raise H.Unsupported("`?` on %r" % (inner,))
+        if k == "call":
+            fp0 = H.path_of(H.unwrap(e0["f"])) or ""
+            if fp0 in ("core::mem::take", "core::mem::replace") and e0["args"]:
+                a0 = H.unwrap(e0["args"][0])
+                if H.is_k(a0, "ref"):
+                    place = a0["e"]
+                    old = self.ev(place, env)
+                    if fp0.endswith("take"):
+                        if isinstance(old, bool):
+                            new = False
+                        elif isinstance(old, int):
+                            new = 0
+                        elif isinstance(old, Vec):
+                            new = Vec([])
+                        elif isinstance(old, tuple) and old and old[0] == "v" and old[1] in (H.SOME, H.NONE):
+                            new = H.NONE_V
+                        else:
+                            raise H.Unsupported("mem::take of %r" % (old,))
+                    else:
+                        new = self.ev(e0["args"][1], env)
+                    self.assign(place, new, env)
+                    return old
         if k == "call":
             fp = H.path_of(H.unwrap(e0["f"])) or ""
             if fp.endswith("vec::from_elem"):
@@ -239,8 +276,23 @@ class VecInterp(SE.Interp):
                 if name == "truncate":
                     del recv.items[args[0]:]
                     return ("t", ())
+                if name == "splice" and isinstance(args[0], tuple) and args[0][0] == "range" and isinstance(args[1], tuple) and args[1][0] == "take":
+                    lo, hi = args[0][1], args[0][2] + (1 if args[0][3] else 0)
+                    if not 0 <= lo <= hi <= len(recv.items):
+                        raise H.Unsupported("splice range out of bounds (would panic)")
+                    recv.items[lo:hi] = [deep(args[1][1]) for _ in range(args[1][2])]
+                    return ("t", ())
+                if name == "drain" and isinstance(args[0], tuple) and args[0][0] == "range":
+                    lo, hi = args[0][1], args[0][2] + (1 if args[0][3] else 0)
+                    if not 0 <= lo <= hi <= len(recv.items):
+                        raise H.Unsupported("drain range out of bounds (would panic)")
+                    out = recv.items[lo:hi]
+                    del recv.items[lo:hi]
+                    return Vec(out)
                 if name == "push":
                     recv.items.append(args[0])
+                    return ("t", ())
+                if name in ("reserve", "reserve_exact", "shrink_to_fit"):
                     return ("t", ())
         if name == "take" and isinstance(recv, tuple) and recv and recv[0] == "repeat" and isinstance(args[0], int):
             return ("take", recv[1], args[0])
@@ -252,6 +304,14 @@ class VecInterp(SE.Interp):
             return max(args[0], min(recv, args[1]))
         if name == "clone":
             return deep(recv)
+        if callee.startswith("core::option::Option") and name in ("as_ref", "as_mut", "copied", "cloned"):
+            return recv
+        if callee.startswith("core::option::Option") and name in ("unwrap_or", "unwrap_or_default"):
+            if recv == H.NONE_V:
+                return args[0] if args else ("sym", "default")
+            return recv[2][0]
+        if callee.startswith("core::option::Option") and name == "take":
+            raise H.Unsupported("Option::take on a value (place semantics needed)")
         return super().ext_method(name, callee, recv, args)
 
 
@@ -492,26 +552,9 @@ def buffer_edit_primitives(ctx, w, S, R, rule, spec=True):
         if need not in sig:
             ctx.missing_anchor(rule, "Buffer %s primitive" % need)
             return
-    # erase selectors -> mode value passed by the handlers
-    selectors = []
-    for (variant, scope), ref in sorted(c07.REF_SCOPES.items()):
-        for h in w.handler(variant):
-            m, i, arm = shared_arm(w, h, scope)
-            if arm is None:
-                continue
-            lines = {n.get("line") for n in H.walk(arm["body"]) if isinstance(n.get("line"), int)}
-            T = w.terms(h)
-            for cs in E.call_sites(h, sig["erase"]):
-                if cs.line in lines:
-                    mode = T.operand(cs.term["args"][2], cs.point)
-                    if mode[0] == "adt" and not mode[4]:
-                        selectors.append(("%s:%s" % (variant, scope.rsplit("::", 1)[-1]), ("v", "%s::%s" % (mode[1], mode[2])), ref))
-    for h in w.handler("Ech"):
-        T = w.terms(h)
-        for cs in E.call_sites(h, sig["erase"]):
-            mode = T.operand(cs.term["args"][2], cs.point)
-            if mode[0] == "adt" and len(mode[4]) == 1:
-                selectors.append(("Ech", ("vn", "%s::%s" % (mode[1], mode[2])), {"cols": "col..col+min(n,cols-col)", "unwrap": "iff-end", "rows": "row"}))
+    # erase selectors -> mode value passed by the handlers (decision table of the handlers, extracted with the
+    # buffer replaced by an opaque symbol: hinterp)
+    selectors = erase_selectors(ctx, w, S, R, rule, sig["erase"])
     if len(selectors) < 7:
         ctx.missing_anchor(rule, "erase selectors of ED/EL/ECH (found %d)" % len(selectors))
         return
@@ -635,3 +678,114 @@ def buffer_edit_primitives(ctx, w, S, R, rule, spec=True):
 def shared_arm(w, h, scope):
     from rules import shared
     return shared.arm_for(w, h, scope)
+
+
+def erase_selectors(ctx, w, S, R, rule, erase_fn):
+    """[(label, mode value | ('vn', path), reference extent)] for ED 0/1/2, EL 0/1/2 and ECH, read off the handlers by
+    evaluating them with an opaque buffer; also checks that they act at the cursor position with the current pen."""
+    from rules import c07, hinterp
+    out = []
+    cols, rows, col, row = 4, 3, 1, 1
+    for (variant, scope), ref in sorted(c07.REF_SCOPES.items()):
+        for h in w.handler(variant):
+            label = "%s:%s" % (variant, scope.rsplit("::", 1)[-1])
+            try:
+                ev, me = hinterp.run_handler(w, S, R, h, [("v", scope)], cols, rows, col, row)
+            except errs() as ex:
+                ctx.violation(rule, "selector:" + label, "cannot evaluate %s for %s: %s" % (h, scope, ex), loc=w.fn_loc(h))
+                continue
+            er = [e for e in ev if e[0] == erase_fn]
+            if len(er) != 1 or any(e[2] == "buffer" and e[0] != erase_fn for e in ev):
+                ctx.violation(rule, "selector:" + label, "%s (%s) performs %s on the buffer; expected exactly one erase" % (variant, scope, [e[0] for e in ev if e[2] == "buffer"]), loc=w.fn_loc(h))
+                continue
+            pos, mode, pen = er[0][1][0], er[0][1][1], er[0][1][2]
+            ctx.check(pos == ("t", (col, row)), rule, "selector:%s:position" % label, "%s erases relative to %r instead of the cursor position" % (h, pos), loc=w.fn_loc(h), sample={"selector": label})
+            ctx.check(pen == hinterp.PEN, rule, "selector:%s:pen" % label, "%s erases with %r instead of the current pen" % (h, pen), loc=w.fn_loc(h))
+            if isinstance(mode, tuple) and mode[0] == "v" and len(mode) == 2:
+                out.append((label, mode, ref))
+    for h in w.handler("Ech"):
+        try:
+            ev, me = hinterp.run_handler(w, S, R, h, [2], cols, rows, col, row)
+        except errs() as ex:
+            ctx.violation(rule, "selector:Ech", "cannot evaluate %s: %s" % (h, ex), loc=w.fn_loc(h))
+            continue
+        er = [e for e in ev if e[0] == erase_fn]
+        if len(er) == 1 and isinstance(er[0][1][1], tuple) and er[0][1][1][0] == "v" and len(er[0][1][1]) == 3 and er[0][1][1][2] == (2,):
+            ctx.check(er[0][1][0] == ("t", (col, row)) and er[0][1][2] == hinterp.PEN, rule, "selector:Ech:operands", "%s erases at %r with %r; expected the cursor position and the current pen" % (h, er[0][1][0], er[0][1][2]), loc=w.fn_loc(h))
+            out.append(("Ech", ("vn", er[0][1][1][1]), {"cols": "col..col+min(n,cols-col)", "unwrap": "iff-end", "rows": "row"}))
+        else:
+            ctx.violation(rule, "selector:Ech", "ECH does not hand its count to one erase of the buffer (%s)" % [(e[0], e[1]) for e in ev if e[2] == "buffer"], loc=w.fn_loc(h))
+    return out
+
+
+def limit_semantics(w, S, T):
+    """Buffer::new(.., Some(L), ..) stores soft = L, hard = L + L/10 (None -> None).  -> (soft field, hard field)."""
+    res = {}
+    for L in (0, 1, 5, 9, 10, 11, 25, 100):
+        it = VecInterp(w.facts)
+        b = it.call_fn(S.buffer_ctor, [2, 2, H.some(L), H.NONE_V])
+        lim = b[2][T.limit_field]
+        if not (isinstance(lim, tuple) and lim[0] == "v" and lim[1] == H.SOME and lim[2][0][0] == "obj"):
+            raise H.Unsupported("limit value %r" % (lim,))
+        res[L] = lim[2][0][2]
+    names = list(res[10])
+    soft = [n for n in names if res[10][n] == 10 and res[25][n] == 25]
+    hard = [n for n in names if n not in soft]
+    if len(soft) != 1 or len(hard) != 1:
+        return None, "cannot tell the soft from the hard limit: %r" % (res[10],)
+    for L, v in res.items():
+        if v[soft[0]] != L or v[hard[0]] != L + L // 10:
+            return None, "limit %d is stored as soft %r / hard %r; documented: soft = L, hard = L + L/10" % (L, v[soft[0]], v[hard[0]])
+    it = VecInterp(w.facts)
+    b = it.call_fn(S.buffer_ctor, [2, 2, H.NONE_V, H.NONE_V])
+    if b[2][T.limit_field] != H.NONE_V:
+        return None, "no configured limit is stored as %r" % (b[2][T.limit_field],)
+    return (soft[0], hard[0]), None
+
+
+def gc_semantics(w, S, T):
+    """Buffer gc interpreted on symbolic rows: for every small (rows, scrollback size, limit, flag):
+    flag clear -> nothing; flag set -> flag cleared, and iff a limit is configured and size > hard the oldest
+    size - soft lines are removed AND returned in order; otherwise nothing.  -> (True, cases) | (False, what)"""
+    names, err = limit_semantics(w, S, T)
+    if names is None:
+        return False, err
+    soft_n, hard_n = names
+    bf = w.facts.struct_fields(S.buffer_ty)
+    n = 0
+    for rows in (1, 2):
+        for size in range(0, 6):
+            for lim in [None] + [(s_, h_) for s_ in range(0, 4) for h_ in (s_, s_ + 1)]:
+                for flag in (False, True):
+                    lines = [("obj", S.line_ty, {S.cells_field: Vec([("sym", "l%d" % i)]), S.wrap_field: False}) for i in range(size + rows)]
+                    flds = {}
+                    for f in bf:
+                        s = f["ty"]["s"]
+                        flds[f["name"]] = False if s == "bool" else 0 if s == "usize" else H.NONE_V if s.startswith("core::option::Option<") else ("sym", "F")
+                    flds.update({S.lines_field: Vec(lines), S.buf_cols: 1, S.buf_rows: rows, T.flag: flag,
+                                 T.limit_field: H.NONE_V if lim is None else H.some(("obj", T.limit_ty, {soft_n: lim[0], hard_n: lim[1]}))})
+                    buf = ("obj", S.buffer_ty, flds)
+                    it = VecInterp(w.facts)
+                    ret = it.call_fn(T.buf_gc, [buf])
+                    got = [l[2][S.cells_field].items[0][1] for l in flds[S.lines_field].items]
+                    all_ = ["l%d" % i for i in range(size + rows)]
+                    if flag and lim is not None and size > lim[1]:
+                        k = size - lim[0]
+                        want, want_ret = all_[k:], all_[:k]
+                    else:
+                        want, want_ret = all_, None
+                    if ret == H.NONE_V:
+                        got_ret = None
+                    elif isinstance(ret, tuple) and ret[0] == "v" and ret[1] == H.SOME and isinstance(ret[2][0], Vec):
+                        got_ret = [l[2][S.cells_field].items[0][1] for l in ret[2][0].items]
+                    else:
+                        raise H.Unsupported("gc result %r" % (ret,))
+                    n += 1
+                    desc = "rows=%d scrollback=%d limit=%s flag=%s" % (rows, size, "None" if lim is None else "soft %d/hard %d" % lim, flag)
+                    if flds[T.flag] is not False:
+                        return False, "%s: the trim flag is still set after the gc" % desc
+                    if got != want:
+                        return False, "%s: lines after the gc %s, specification %s" % (desc, got, want)
+                    if (got_ret or None) != (want_ret or None):
+                        return False, "%s: the gc hands out %s, specification %s (the drained lines, oldest first)" % (desc, got_ret, want_ret)
+    return True, n
